@@ -358,7 +358,7 @@ def set_palette_cases(rng, n):
     return c10.macro_cases(rng, n)
 
 
-def check(ck, aspect, theorems, t2_parts=("body", "status", "validity")):
+def check(ck, aspect, theorems, t2_parts=("body", "status")):
     ck.prove(theorems)
     ck.build_harness("inproc")
     res = t2.run(ck)
@@ -445,6 +445,8 @@ def check(ck, aspect, theorems, t2_parts=("body", "status", "validity")):
     if t2_mm and not found_input:
         ck.report("corr:T2-body", "the model of the code generator no longer matches the real expansion (%d inputs differ); the theorems of %s are about a model the code has moved away from" % (len(t2_mm), aspect),
                   dict(broken="correspondence T2 (expansion tokens)", theorems=theorems, first=t2_mm[:3]), no_input=True)
+    import parsetie
+    parsetie.light_tie(ck, "%s: the specification reads every pattern with the model parser" % aspect)
     ck.assumptions += [
         "Rust's dynamic semantics for the constructs the expansion uses (match with default binding modes, matches!, std PartialEq/PartialOrd/Debug) are modelled by AsModel.Exec / RustPrims and validated by the T3 corpora, not proved",
         "user expressions are opaque: their meaning is a parameter of every theorem (Prims) and a table supplied by the generator in T3",
